@@ -82,6 +82,10 @@ type Server struct {
 	// (also for requests that are only queued inside MULTI).  A non-nil
 	// override is sent as the reply instead of executing.
 	PreExec func(connID int, db int, name string, args [][]byte, inMulti bool) (override interface{}, act Action)
+	// AfterExec, if set, is called under the lock after a request was executed; CloseConn drops the reply.
+	AfterExec func(connID int, name string, args [][]byte) Action
+	// LuaErrors collects constructs the mini Lua interpreter could not run (harness errors)
+	LuaErrors []string
 	// Hold, if set, may return a channel; the reply is written only after it is closed.
 	Hold func(connID int, name string, args [][]byte) <-chan struct{}
 	// RestoreDecoder turns a RESTORE payload into a value (nil, error text on failure)
@@ -224,6 +228,10 @@ func (s *Server) serve(c *conn) {
 		}
 		if reply == nil {
 			reply = s.dispatch(c, name, args[1:])
+		}
+		if s.AfterExec != nil && s.AfterExec(c.id, name, args[1:]) == CloseConn {
+			s.mu.Unlock()
+			return
 		}
 		var hold <-chan struct{}
 		if s.Hold != nil {
